@@ -2,7 +2,7 @@
 # dev aid: confirm a sub-agent's seeded change in the scratch worktree /tmp/wt/verify and store it under seeded/<name>.
 # usage: ingest_seed.sh <agent-worktree> <name> <Cxx> "<needs to manifest>"
 wt=$1; name=$2; pid=$3; needs=$4
-v=/tmp/wt/verify
+v=/tmp/wt/verify2
 d=/verif/seeded/$name
 mkdir -p $d
 cp $wt/_out/patch.diff $wt/_out/demo.py $d/ 2>/dev/null
